@@ -6,6 +6,8 @@
 package PKGNAME
 
 import (
+	"math/rand"
+	"time"
 	"encoding/json"
 	"fmt"
 	"os"
@@ -62,21 +64,69 @@ func vfLoad(path string) (*vfReplayFile, error) {
 	return &rf, nil
 }
 
+type vfRandEnt struct {
+	kind string
+	n    int64
+	i    int64
+	f    float64
+}
+
+var (
+	vfRandLog     []vfRandEnt
+	vfRandLogging bool
+	vfRandReplay  = -1
+)
+
+// verifRandMark / verifRandRewind model "seed the generator, run, seed it again with the same
+// seed": the draws made after the mark are delivered again after the rewind, for as long as the
+// requests (kind and bound) are those of the first run.
+func verifRandMark() { vfRandLog, vfRandLogging, vfRandReplay = nil, true, -1 }
+
+func verifRandRewind() { vfRandReplay = 0 }
+
 // vfNextRand serves the math/rand overlay of the replay build (installed as rand.VerifNext):
 // the outcome recorded for the next random draw. Draws and nondet inputs share one cursor,
 // in program order.
-func vfNextRand(kind string) (int64, float64, bool) {
+func vfNextRand(kind string, n int64) (int64, float64, bool) {
+	if vfRandReplay >= 0 {
+		if vfRandReplay < len(vfRandLog) {
+			e := vfRandLog[vfRandReplay]
+			if e.kind == kind && e.n == n {
+				vfRandReplay++
+				return e.i, e.f, true
+			}
+		}
+		vfRandReplay = -1
+	}
 	if vfPos >= len(vfTape) || vfTape[vfPos].T != kind {
 		return 0, 0, false
 	}
 	e := vfTape[vfPos]
 	vfPos++
+	ent := vfRandEnt{kind: kind, n: n}
 	if kind == "rand.f64" {
-		f, _ := strconv.ParseFloat(e.V, 64)
-		return 0, f, true
+		ent.f, _ = strconv.ParseFloat(e.V, 64)
+	} else {
+		ent.i, _ = strconv.ParseInt(e.V, 10, 64)
 	}
-	n, _ := strconv.ParseInt(e.V, 10, 64)
-	return n, 0, true
+	if vfRandLogging {
+		vfRandLog = append(vfRandLog, ent)
+	}
+	return ent.i, ent.f, true
+}
+
+// vfFree: sampling mode. The harness's own inputs are drawn at random (private generator, the
+// global one is left to the code under test).
+var (
+	vfFree   bool
+	vfRngVal *rand.Rand
+)
+
+func vfRng() *rand.Rand {
+	if vfRngVal == nil {
+		vfRngVal = rand.New(rand.NewSource(time.Now().UnixNano()))
+	}
+	return vfRngVal
 }
 
 func vfNext(kinds ...string) string {
@@ -94,19 +144,36 @@ func vfNext(kinds ...string) string {
 }
 
 func nondetByte() uint8 {
+	if vfFree {
+		return uint8(vfRng().Intn(256))
+	}
 	n, _ := strconv.ParseUint(vfNext("u8"), 10, 8)
 	return uint8(n)
 }
 
-func nondetBool() bool { return vfNext("bool") == "true" }
+func nondetBool() bool {
+	if vfFree {
+		return vfRng().Intn(2) == 1
+	}
+	return vfNext("bool") == "true"
+}
 
 func nondetInt() int {
+	if vfFree {
+		return vfRng().Intn(17) - 8
+	}
 	n, _ := strconv.ParseInt(vfNext("i64"), 10, 64)
 	return int(n)
 }
 
 // nondetRange returns an int in [lo, hi]; the engine enumerates every value (shape choice).
 func nondetRange(lo, hi int) int {
+	if vfFree {
+		if hi < lo {
+			panic(vfStop{kind: "assume", label: "empty range"})
+		}
+		return lo + vfRng().Intn(hi-lo+1)
+	}
 	n, _ := strconv.ParseInt(vfNext("i64"), 10, 64)
 	if int(n) < lo || int(n) > hi {
 		panic(vfStop{kind: "tape", label: "range value outside bounds"})
@@ -116,12 +183,18 @@ func nondetRange(lo, hi int) int {
 
 // nondetFloat returns an arbitrary finite float64 (an arbitrary real under the engine).
 func nondetFloat() float64 {
+	if vfFree {
+		return float64(vfRng().Intn(65)-32) / 16
+	}
 	f, _ := strconv.ParseFloat(vfNext("f64"), 64)
 	return f
 }
 
 // nondetDyadic returns k/den for an arbitrary integer k in [lo, hi].
 func nondetDyadic(den, lo, hi int) float64 {
+	if vfFree {
+		return float64(lo+vfRng().Intn(hi-lo+1)) / float64(den)
+	}
 	f, _ := strconv.ParseFloat(vfNext("f64"), 64)
 	return f
 }
@@ -139,6 +212,10 @@ func verifAssert(b bool, label string) {
 }
 
 func verifReach(label string) { vfReached = append(vfReached, label) }
+
+// verifSupport marks an outcome that must have positive probability: under the engine a label
+// that no path reaches is a violation of the property (natively: recorded like verifReach).
+func verifSupport(label string) { vfReached = append(vfReached, label) }
 
 func verifObserve(label string, vals ...interface{}) {
 	parts := make([]string, len(vals))
